@@ -42,6 +42,76 @@ pub fn number_text(node: &Node) -> String {
     }
 }
 
+/// Maximum nesting depth of XML elements accepted by the reader.
+/// E57 files need less than ten levels, the XML parser needs stack space for every level.
+const MAX_XML_DEPTH: usize = 64;
+
+/// Maximum number of attributes of a single XML element accepted by the reader.
+/// The XML parser compares every new attribute and namespace declaration with all earlier ones of the element.
+const MAX_XML_ATTRIBUTES: usize = 256;
+
+/// Linear scan that rejects XML whose shape makes the recursive XML parser overflow the stack
+/// or spend quadratic time, before the parser sees it. Everything else is left to the parser.
+pub fn check_xml_shape(xml: &str) -> Result<()> {
+    let bytes = xml.as_bytes();
+    let mut depth = 0_usize;
+    let mut i = 0;
+    while i < bytes.len() {
+        if bytes[i] != b'<' {
+            i += 1;
+            continue;
+        }
+        let rest = &xml[i..];
+        if rest.starts_with("<!--") {
+            i += rest.find("-->").map(|p| p + 3).unwrap_or(rest.len());
+        } else if rest.starts_with("<![CDATA[") {
+            i += rest.find("]]>").map(|p| p + 3).unwrap_or(rest.len());
+        } else if rest.starts_with("<?") {
+            i += rest.find("?>").map(|p| p + 2).unwrap_or(rest.len());
+        } else if rest.starts_with("<!") {
+            // Document type declarations are refused by the parser anyway
+            i += 2;
+        } else if rest.starts_with("</") {
+            depth = depth.saturating_sub(1);
+            i += rest.find('>').map(|p| p + 1).unwrap_or(rest.len());
+        } else {
+            // Start tag: find its end outside of quoted attribute values and count the attributes
+            let mut quote = 0_u8;
+            let mut attributes = 0_usize;
+            let mut end = bytes.len();
+            for (k, b) in bytes.iter().enumerate().skip(i + 1) {
+                if quote != 0 {
+                    if *b == quote {
+                        quote = 0;
+                    }
+                } else if *b == b'"' || *b == b'\'' {
+                    quote = *b;
+                    attributes += 1;
+                } else if *b == b'>' {
+                    end = k;
+                    break;
+                }
+            }
+            if attributes > MAX_XML_ATTRIBUTES {
+                Error::invalid(format!(
+                    "XML elements with more than {MAX_XML_ATTRIBUTES} attributes are not supported"
+                ))?
+            }
+            let empty_element = end > 0 && end < bytes.len() && bytes[end - 1] == b'/';
+            if !empty_element {
+                depth += 1;
+                if depth > MAX_XML_DEPTH {
+                    Error::invalid(format!(
+                        "XML elements nested deeper than {MAX_XML_DEPTH} levels are not supported"
+                    ))?
+                }
+            }
+            i = end.saturating_add(1).min(bytes.len()).max(i + 1);
+        }
+    }
+    Ok(())
+}
+
 pub fn opt_string(parent_node: &Node, tag_name: &str) -> Result<Option<String>> {
     if let Some(tag) = parent_node.children().find(|n| n.is_e57_tag(tag_name)) {
         let expected_type = "String";
